@@ -139,6 +139,7 @@ func runC18(c *core.Ctx) {
 		"{% for x in arr limit: d offset: 1 %}{{ x }}{% endfor %}", "{{ d | divided_by: 2 }}{{ 7 | divided_by: d }}{{ 7 | modulo: d }}", "{{ s | size }}{{ arr | size }}", "{{ s | slice: 0, d }}{{ s | truncate: 5 }}",
 		"{{ d | default: 'x' }}{{ nd | default: 'dflt' }}", "{% if d < 3 and d > 1 %}T{% endif %}{% if d <= 2 or nd %}U{% endif %}",
 		"{{ m }}", "{{ objs[0] }}|{{ objs | last }}", "{{ mm }}", "{% for kv in mm %}{{ kv[1] }}{% endfor %}",
+		"{{ objs | sort_natural: 'name' | map: 'id' | join: ',' }}|{{ objs | sort: 'name' | map: 'name' | join: ',' }}|{{ objs | sort: 'id' | map: 'id' | join: '' }}",
 		// nil inside containers, also as a Drop whose value is nil
 		"{% if holes contains nil %}T{% else %}F{% endif %}|{% if holes contains nd %}T{% else %}F{% endif %}|{{ holes | compact | size }}|{{ holes | size }}", "{% if holes == holes2 %}T{% else %}F{% endif %}{% if holes != holes2 %}N{% endif %}{% if holes[1] == nil %}n{% endif %}{% if holes[1] %}t{% else %}f{% endif %}",
 		"{% if mm.n == nil %}T{% else %}F{% endif %}{% if mm.n %}t{% else %}f{% endif %}{% if mm == mm %}R{% endif %}{% for x in holes %}{% if x == nil %}~{% else %}{{ x }}{% endif %}{% endfor %}", "{% case nd %}{% when nil %}N{% else %}E{% endcase %}{% case holes[1] %}{% when nil %}N{% else %}E{% endcase %}{{ holes | join: '-' }}{{ holes | first }}{{ holes | last }}",
@@ -246,6 +247,31 @@ func runC18(c *core.Ctx) {
 			continue
 		}
 		c18Compare(c, e, "bytes", src, env, gen.Rep{Bytes: true}, 2, i)
+	}
+	// ---- (7) empty collections: an empty array is an empty array in every Go representation, an empty map an empty map ------------
+	if c.Shard == 16%c.NShards && c.Begin("empty collections") {
+		tpl := "{{ v | default: 'none' }}|{{ v | size }}|{% if v == empty %}E{% else %}n{% endif %}|{% for x in v %}x{% else %}else{% endfor %}|{% if v %}T{% endif %}|{{ v | first }}|{{ v | join: ',' }}|{{ v | compact | size }}|{{ h.v | default: 'd' }}|{% if v == blank %}B{% endif %}"
+		var nilSlice []string
+		var nilAny []any
+		var nilMap map[string]any
+		groups := map[string][]any{
+			"array": {[]any{}, []string{}, [0]string{}, [0]any{}, nilSlice, nilAny, gen.DropV{X: []any{}}, &gen.DropP{X: [0]int{}}, gen.NStrs{}, &[]any{}, []int{}},
+			"map":   {map[string]any{}, map[string]int{}, nilMap, gen.NDict{}, gen.DropV{X: map[string]any{}}, &map[string]any{}},
+		}
+		for kind, vals := range groups {
+			base := core.Run(e, tpl, map[string]any{"v": vals[0], "h": map[string]any{"v": vals[0]}})
+			for _, v := range vals[1:] {
+				alt := core.Run(e, tpl, map[string]any{"v": v, "h": map[string]any{"v": v}})
+				c.Eval(2)
+				c.Obs("alternative_realisations_compared", 1)
+				c.Obs("family:empty-collections", 1)
+				c.Distinct("emptycoll", kind, gen.Describe(v))
+				if !base.OK() || !alt.Same(base) {
+					c.Violate("empty-collections|"+kind+"|"+resClass(alt), "an empty "+kind+" behaves the same in every Go representation (generic, typed, fixed-size, unallocated, named, behind a pointer or a Drop)",
+						map[string]any{"source": tpl, "canonical": gen.Describe(vals[0]), "canonical_result": base.Brief(), "alternative": gen.Describe(v), "alternative_result": alt.Brief()})
+				}
+			}
+		}
 	}
 	// ---- (6) times: a *time.Time reached by variable or property lookup behaves as the time.Time ----------------
 	tmT := []string{"{{ tm }}", "{{ tm | date: '%Y-%m-%d %H:%M:%S' }}", "{{ h.tm }}|{{ h.tm | date: '%j' }}", "{{ st.T }}|{{ st.T | date: '%b %d, %y' }}", "{% assign v = tm %}{{ v }}{{ v | date: '%s' }}",
